@@ -15,7 +15,7 @@ struct Case {
 static const char *api_name(int a) {
     switch (a) { case 0: return "source_get_chunk"; case 1: return "sink_put_chunk"; case 2: return "source_get_chunk_atmost"; case 3: return "sink_put_chunk_atmost";
     case 10: return "sts_cbc"; case 11: return "sts_n_cbc"; case 12: return "sts_drain_cbc"; case 13: return "sts_n"; case 14: return "sts_drain";
-    case 15: return "sts_some_aux"; case 16: return "sts_atmost_aux"; case 17: return "sts_n_aux"; case 18: return "sts_drain_aux"; }
+    case 15: return "sts_some_aux"; case 16: return "sts_atmost_aux"; case 17: return "sts_n_aux"; case 18: return "sts_drain_aux"; case 19: return "sts_atmost"; case 20: return "sts_some"; }
     return "?";
 }
 static std::string ser_script(const std::vector<int> &s) { std::string o = "["; for (int v : s) o += (v == ep::ALL ? std::string("all") : std::to_string(v)) + ","; return o + "]"; }
@@ -105,7 +105,10 @@ static void run_plumbing(const Case &c) {
     Bytes st = stream_of(c.len);
     ep::ScriptSource src(c.chunk_src, st); src.script.steps = c.sscript;
     ep::ScriptSink snk(c.chunk_snk); snk.script.steps = c.kscript;
-    bool aux = c.api >= 15;
+    bool aux = c.api >= 15 && c.api <= 18;
+    // sts_n / sts_drain / sts_atmost / sts_some: aux_size > 0 means the (chunk) source lends a scratch region of that size through the getbuffer extension
+    bool lends = (c.api == 13 || c.api == 14 || c.api == 19 || c.api == 20) && c.aux_size > 0 && c.chunk_src;
+    if (lends) src.lend(c.aux_size);
     vp::Block auxmem(aux ? c.aux_size : 1, 0x77);
     ByteBuffer ab; ab.data = auxmem.p; ab.size = c.aux_size; ab.used = c.aux_used; ab.offset = c.aux_off;
     ByteBuffer before = ab;
@@ -121,11 +124,14 @@ static void run_plumbing(const Case &c) {
         case 16: r = sts_atmost_aux(&src.src, &snk.snk, &ab, c.n); break;
         case 17: r = sts_n_aux(&src.src, &snk.snk, &ab, c.n); break;
         case 18: r = sts_drain_aux(&src.src, &snk.snk, &ab); break;
+        case 19: r = sts_atmost(&src.src, &snk.snk, c.n); break;
+        case 20: r = sts_some(&src.src, &snk.snk); break;
         }
         vp::budget().armed = false;
     } else { F(c, "no-progress", vp::fmt("%zu source and %zu sink driver calls without completion", src.calls, snk.calls)); return; }
     // always: the sink holds a prefix of the stream, nothing is lost between source position and sink
     if (!ep::is_prefix(snk.got, st)) { F(c, "sink-not-a-prefix", "sink received " + vp::hex(snk.got) + " stream " + vp::hex(st)); return; }
+    if (!src.scratch_guard_ok()) { F(c, "lent-region-overrun", "octets outside the region the source lent were written"); return; }
     if (aux) {
         if (ab.data != before.data || ab.size != before.size) { F(c, "aux-descriptor-changed", "data/size of the auxiliary buffer changed"); return; }
         if (!(ab.offset <= ab.used && ab.used <= ab.size)) { F(c, "aux-invariant", "offset <= used <= size broken"); return; }
@@ -172,8 +178,9 @@ static void run_plumbing(const Case &c) {
         if (hard) break;
         if (snk.got.size() != c.len) F(c, "drain-moved", vp::fmt("moved %zu of %zu octets (returned %zd)", snk.got.size(), c.len, r));
         break;
-    case 15: case 16: {
+    case 15: case 16: case 19: case 20: {
         size_t cap = c.api == 16 ? std::min(region, c.n) : region;
+        if (c.api >= 19) cap = lends ? ((c.api == 19 && c.n) ? std::min(c.n, c.aux_size) : c.aux_size) : 1;   // without a lent buffer these calls move one octet
         if (snk.got.size() > cap) { F(c, "atmost-moved-more", vp::fmt("moved %zu octets, limit %zu", snk.got.size(), cap)); break; }
         if (hard) break;
         if (r >= 0) {
@@ -294,16 +301,17 @@ static void run() {
     }
     // plumbing: structured grid
     static const std::vector<std::vector<int>> PS = {{}, {1}, {1, 1, 2}, {2, 1, 3}, {3, 3}, {1, ep::ALL, 1}, {HARD}, {ep::ALL, HARD}, {1, 2, HARD}, {2, 2, 2, 2, HARD}};
-    for (int api = 10; api <= 18; api++)
+    for (int api = 10; api <= 20; api++)
         for (size_t len = 0; len <= 12; len++)
             for (int ks = 0; ks < 4; ks++)
                 for (size_t si = 0; si < PS.size(); si++) for (size_t ki = 0; ki < PS.size(); ki++) {
                     if (idx++ % a.nshards != a.shard) continue;
                     bool csrc = ks & 1, csnk = ks & 2;
                     std::vector<size_t> ns = {0};
-                    if (api == 11 || api == 13 || api == 16 || api == 17) ns = {0, 1, 2, 3, 4, 5, 7, 8, 9, 12, 13};
+                    if (api == 11 || api == 13 || api == 16 || api == 17 || api == 19) ns = {0, 1, 2, 3, 4, 5, 7, 8, 9, 12, 13};
                     std::vector<std::array<size_t, 3>> auxes = {{0, 0, 0}};
-                    if (api >= 15) auxes = {{1, 0, 1}, {2, 0, 2}, {3, 0, 3}, {4, 0, 4}, {8, 0, 8}, {4, 1, 4}, {5, 2, 4}, {8, 3, 7}};
+                    if (api >= 15 && api <= 18) auxes = {{1, 0, 1}, {2, 0, 2}, {3, 0, 3}, {4, 0, 4}, {8, 0, 8}, {4, 1, 4}, {5, 2, 4}, {8, 3, 7}};
+                    if ((api == 13 || api == 14 || api >= 19) && csrc) auxes = {{0, 0, 0}, {1, 0, 0}, {2, 0, 0}, {3, 0, 0}, {5, 0, 0}, {16, 0, 0}};   // size of the region the source lends (0: no extension)
                     for (size_t n : ns) for (auto &ax : auxes) {
                         Case c{api, csrc, csnk, n, len, PS[si], PS[ki], ax[0], ax[1], ax[2]};
                         // octet-style drivers move one octet per call whatever the script says; hard errors still apply
